@@ -559,6 +559,24 @@ def _text_codec (ctx, repo, lof):
   else:
     ctx.ob('R-AGREE', wr, "_packzs keeps every character of a string that fits and pads with NULs", not wrong, "5 samples" if not wrong else
            "_packzs(%r, %d) evaluates to %r, expected %r: a name that fills its field is cut, so the decoded object differs from the encoded one" % wrong[0], wr, 'D2')
+  # the reader by evaluation: everything up to the first NUL, and all of it when the string fills the field (there is no NUL then)
+  gr_ = q.cfg_of(rd)
+  wrong = []; unknown = 0
+  hook_r = q.PureCallHook(repo, lof)
+  for data, off, ln, want in ((b'abcd', 0, 4, (4, 'abcd')), (b'ab\x00\x00', 0, 4, (4, 'ab')), (b'xxab\x00\x00', 2, 4, (6, 'ab')), (b'\x00\x00', 0, 2, (2, '')), (b'p' * 16, 0, 16, (16, 'p' * 16))):
+    res = set()
+    try:
+      for p_, e_ in q.paths_under(repo, lof, gr_, q.Env({rd.params[0]: data, rd.params[1]: off, rd.params[2]: ln}, [], hook_r), gr_.entry, [n for n in gr_.nodes if n.kind == 'return'], None, limit=20):
+        try: res.add(q.eval_env2(repo, lof, p_[-1].ast.value, e_, None))
+        except Exception: res.add('?')
+    except Exception: res.add('?')
+    if len(res) != 1 or '?' in res or not isinstance(list(res)[0], tuple) or q.OPAQUE in list(res)[0]: unknown += 1
+    elif tuple(list(res)[0]) != want: wrong.append((data, off, ln, list(res)[0], want))
+  if unknown and not wrong:
+    ctx.undecided('R-AGREE', rd, "_readzs returns the characters before the first NUL, all of them when the field is full", "%d sample(s) not evaluable" % unknown, rd, 'D2')
+  else:
+    ctx.ob('R-AGREE', rd, "_readzs returns the characters before the first NUL, all of them when the field is full", not wrong, "5 samples" if not wrong else
+           "_readzs(%r, %d, %d) evaluates to %r, expected %r: a name that fills its field (no NUL) loses characters, so the port is known under another name than the switch reported" % wrong[0], rd, 'D2')
   dn = set(x for x in found['decode'][0]); en = set(x for x in found['encode'][0])
   if dn and en and all(isinstance(x, str) for x in dn | en):
     ctx.ob('R-SIB', rd, "reader and writer of zero-padded strings use the same codec", dn == en, "both %s" % sorted(dn) if dn == en else "reader decodes with %s, writer encodes with %s" % (sorted(dn), sorted(en)), rd, 'D2')
